@@ -148,6 +148,10 @@ def spec_call(ex, ev: Eval, node: ast.Call, fname: str):
         if isinstance(m.t, TList):
             return mk_list(m.t, list_len(m), z3.Store(list_arr(m), ev.expr(a[1]).z, coerce_to(ev.expr(a[2]), m.t.elem).z))
         raise Unsupported("store on " + str(m.t))
+    if fname == "xadd":  # extended-real addition of the code's `+` under `ext_inf`: +inf absorbs
+        from .expr import INF
+        x, y = coerce_to(ev.expr(a[0]), REAL).z, coerce_to(ev.expr(a[1]), REAL).z
+        return V(REAL, z3.If(z3.Or(x == INF, y == INF), INF, x + y))
     if fname == "int_typed":
         # static: the argument is an int (or a list of ints) in THIS type variant of the proof
         v = ev.expr(a[0])
